@@ -52,8 +52,8 @@ fn alphabet(tier: Tier) -> Vec<Op> {
         s("mutate-exported-list", "l.push 9\n", "l.push 9\n"),
         s(
             "define-functions",
-            "export f_ok = |x| x + 1\nexport f_throw = || throw 'ft'\nexport f_deep = || [1, 'a{(|| (2, f_throw()))()}']\nexport bad = {@display: (|| throw 'd'), @+: (|o| throw 'p')}\nexport g_gen = ||\n  yield 1\n  throw 'in generator'\n",
-            "export f_ok = |x| x + 1\nexport f_throw = || throw 'ft'\nexport f_deep = || [1, 'a{(|| (2, f_throw()))()}']\nexport bad = {@display: (|| throw 'd'), @+: (|o| throw 'p')}\nexport g_gen = ||\n  yield 1\n  throw 'in generator'\n",
+            "export f_ok = |x| x + 1\nexport f_throw = || throw 'ft'\nexport f_deep = || [1, 'a{(|| (2, f_throw()))()}']\nexport bad = {@display: (|| throw 'd'), @+: (|o| throw 'p'), @<: (|o| throw 'lt'), @size: (|| throw 'sz'), @index: (|i| throw 'ix'), @iterator: (|| throw 'it')}\nexport g_gen = ||\n  yield 1\n  throw 'in generator'\nexport f_disp = || 'x{bad}'\nexport f_sort = || [bad, bad].sort()\nexport f_unpack = ||\n  a, b = bad\n  a\nexport f_caught = ||\n  try\n    'x{bad}'\n  catch e\n    'caught'\n",
+            "export f_ok = |x| x + 1\nexport f_throw = || throw 'ft'\nexport f_deep = || [1, 'a{(|| (2, f_throw()))()}']\nexport bad = {@display: (|| throw 'd'), @+: (|o| throw 'p'), @<: (|o| throw 'lt'), @size: (|| throw 'sz'), @index: (|i| throw 'ix'), @iterator: (|| throw 'it')}\nexport g_gen = ||\n  yield 1\n  throw 'in generator'\nexport f_disp = || 'x{bad}'\nexport f_sort = || [bad, bad].sort()\nexport f_unpack = ||\n  a, b = bad\n  a\nexport f_caught = ||\n  try\n    'x{bad}'\n  catch e\n    'caught'\n",
         ),
         // failing runs: prefix (completed effects) then the failure
         s("throw-after-export", "export p = 1\nthrow 'x'\n", "export p = 1\n"),
@@ -72,6 +72,8 @@ fn alphabet(tier: Tier) -> Vec<Op> {
         s("error-in-list", "z = [1, [2, (throw 'in list')], 3]\n", ""),
         s("error-in-map-and-args", "f3 = |a, b, c| a\nz = {k: f3(1, (throw 'in args'), 3)}\n", ""),
         s("error-in-meta-add", "o = {@+: |x| throw 'in add'}\nz = o + 1\n", ""),
+        s("error-in-meta-display", "o = {@display: || throw 'in display'}\nz = 'a{o}'\n", ""),
+        s("error-in-sort-compare", "o = {@<: |x| throw 'in lt'}\nz = [o, o].sort()\n", ""),
         s("failed-let-hint", "let h: String = 42\n", ""),
         s("mutate-then-fail", "l.push 7\nz = l[99]\n", "l.push 7\n"),
         s("compile-error", "x = (\n", ""),
@@ -84,6 +86,11 @@ fn alphabet(tier: Tier) -> Vec<Op> {
         Op::Call { name: "f_throw", function: "f_throw", args: 0 },
         Op::Call { name: "f_deep", function: "f_deep", args: 0 },
         Op::Call { name: "generator", function: "g_gen", args: 0 },
+        // errors thrown by overridden operators that native code (not an instruction) invokes
+        Op::Call { name: "f_disp", function: "f_disp", args: 0 },
+        Op::Call { name: "f_sort", function: "f_sort", args: 0 },
+        Op::Call { name: "f_unpack", function: "f_unpack", args: 0 },
+        Op::Call { name: "f_caught", function: "f_caught", args: 0 },
         Op::CallNativeBadArgs,
         Op::Display { name: "bad-display", value: "bad" },
         Op::Display { name: "plain", value: "l" },
@@ -111,6 +118,7 @@ fn alphabet(tier: Tier) -> Vec<Op> {
     v.push(Op::Script { name: "repl-assign-then-fail", src: "rc = 5\nrd = rc + 'x'\n", reference: "rc = 5\n", repl: true, timeout: false });
     if tier == Tier::Thorough {
         v.push(s("failing-test", "export @test broken = || assert false\n", "export @test broken = || assert false\n"));
+        v.push(s("failing-test-in-display", "export @test shown = || 'x{{@display: || throw 'td'}}'\n", "export @test shown = || 'x{{@display: || throw 'td'}}'\n"));
         v.push(s("error-in-nested-try-finally", "try\n  try\n    throw 'a'\n  finally\n    z = [1, (throw 'b')]\ncatch e\n  throw 'c'\n", ""));
     }
     v
